@@ -17,11 +17,19 @@ func pick[T any](r *rand.Rand, xs ...T) T { return xs[r.Intn(len(xs))] }
 
 func genLedgerWalk(r *rand.Rand, n int) []Step {
 	var st []Step
+	if genIndex%5 == 2 {
+		// scripted corner: two single-sided joins into the oracle pool WITHOUT accounted pool in ONE block (the second is priced
+		// after the first has changed the pool), then exits after the lock-up
+		st = append(st, Step{"a": "join", "u": "u2", "p": float64(3), "sz": pick(r, "s3", "big"), "mode": "single", "d": "uusdt"},
+			Step{"a": "join", "u": "u3", "p": float64(3), "sz": pick(r, "s3", "s2"), "mode": "single", "d": "uusdc"},
+			Step{"a": "join", "u": "u2", "p": float64(3), "sz": "s2", "mode": "single", "d": "uusdc"}, Step{"a": "block", "dt": float64(3700)},
+			Step{"a": "exit", "u": "u3", "p": float64(3), "frac": "all"}, Step{"a": "exit", "u": "u2", "p": float64(3), "frac": "half", "d": "uusdc"}, Step{"a": "block", "dt": float64(5)})
+	}
 	users := []string{"u1", "u2", "u3"}
 	sizes := []string{"dust", "s1", "s2", "s2", "s3"}
 	for i := 0; i < n; i++ {
 		u := pick(r, users...)
-		p := float64(1 + r.Intn(2))
+		p := float64(1 + r.Intn(3))
 		switch r.Intn(12) {
 		case 0, 1, 2:
 			st = append(st, Step{"a": "swapIn", "u": u, "p": p, "din": pick(r, "uusdc", ""), "sz": pick(r, sizes...), "limit": pick(r, "loose", "loose", "tight", "impossible"), "rcpt": pick(r, "", "", "u3")})
@@ -113,7 +121,28 @@ func genPositionsWalk(r *rand.Rand, n int) []Step {
 func genScenario(r *rand.Rand, i int) []Step {
 	blk := func(dt int) Step { return Step{"a": "block", "dt": float64(dt)} }
 	u, v := pick(r, "u2", "u3"), "u1"
-	switch i % 11 {
+	switch i % 14 {
+	case 12: // the sweep liquidates a big position and then looks at a healthy one of the same pool whose stop-loss sits a few per cent
+		// below the LP price (both in one page of the sweep, an hour after opening)
+		return []Step{{"a": "levOpen", "u": "u2", "p": float64(1), "sz": pick(r, "25000000000", "30000000000"), "lev": "9"},
+			{"a": "levOpen", "u": "u3", "p": float64(1), "sz": "s1", "lev": "2", "slMul": pick(r, "0.8", "0.79", "0.81")}, blk(5), blk(3700),
+			{"a": "feed", "asset": "ATOM", "mul": "0.75"}, blk(5), blk(5), blk(5),
+			{"a": "levClose", "u": "u3", "id": float64(2), "frac": "half"}, blk(5)}
+	case 13: // two external incentives in different denoms on one pool with overlapping ranges, the first outliving the second;
+		// an LP joins during the overlap; afterwards everybody claims
+		return []Step{{"a": "incentive", "u": "u2", "p": float64(2), "d": "uatom", "perBlock": "1000000", "from": float64(0), "len": float64(14)},
+			{"a": "incentive", "u": "u3", "p": float64(2), "d": "uusdc", "perBlock": "500000", "from": float64(pick(r, 0, 0, 1)), "len": float64(5)}, blk(5), blk(5), blk(5),
+			{"a": "join", "u": "u3", "p": float64(2), "sz": "s3", "mode": "all"}, blk(5), blk(5), blk(5), blk(5),
+			{"a": "exit", "u": "u3", "p": float64(2), "frac": "half"}, {"a": "block", "dt": float64(5), "n": float64(8)},
+			{"a": "claim", "u": "u3", "pools": []any{float64(2)}}, {"a": "claim", "u": "u1", "pools": []any{float64(2)}}, blk(5)}
+	case 11: // longs that together hold more than half of the pool's trading asset: the health estimate of the big one fails AFTER
+		// its interest was settled (the attempt is rolled back), then a healthy position of the SAME pool in the SAME bot message
+		return []Step{{"a": "perpOpen", "u": "u2", "p": float64(1), "side": "long", "coll": "uusdc", "sz": pick(r, "450000000000", "440000000000"), "lev": "2"},
+			{"a": "perpOpen", "u": "u1", "p": float64(1), "side": "long", "coll": "uusdc", "sz": pick(r, "80000000000", "100000000000"), "lev": "2"},
+			{"a": "perpOpen", "u": "u3", "p": float64(1), "side": pick(r, "short", "long"), "coll": "uusdc", "sz": "1000000", "lev": "2"}, blk(5), blk(pick(r, 5, 3600)),
+			{"a": "perpClosePositions", "u": "bot", "exact": true, "liq": []any{[]any{"u2", float64(1)}, []any{"u3", float64(3)}}, "sl": []any{}, "tp": []any{}}, blk(5),
+			{"a": "perpClosePositions", "u": "bot", "exact": true, "liq": []any{[]any{"u2", float64(1)}}, "sl": []any{[]any{"u3", float64(3)}}, "tp": []any{[]any{"u3", float64(3)}}}, blk(5),
+			{"a": "swapIn", "u": "u1", "p": float64(1), "din": "uusdc", "sz": "s1", "limit": "loose"}, blk(5)}
 	case 8: // a route that visits the same pool twice (round trip inside one request), then ordinary traffic on that pool
 		return []Step{{"a": "swapIn", "u": u, "route": []any{float64(1), float64(1)}, "din": pick(r, "uatom", "uusdc"), "sz": pick(r, "s1", "s2"), "limit": "loose"}, blk(5),
 			{"a": "swapIn", "u": "u3", "route": []any{float64(2), float64(2)}, "din": "uelys", "sz": pick(r, "s1", "s2"), "limit": "loose", "rcpt": "u2"}, blk(5),
